@@ -85,7 +85,9 @@ def encodedLen (h : Hdr) : Nat :=
 
 /-- `RtpHeader::validate` (what `protect` checks before writing) -/
 def validHdr (h : Hdr) : Bool :=
-  h.csrcs.length ≤ rtpMaxCsrc && (match h.ext with | none => true | some e => e.data.length % 4 == 0)
+  h.pt.toNat ≤ 0x7F &&                       -- fix 3e6a870 (was masked to 7 bits)
+  h.csrcs.length ≤ rtpMaxCsrc && (match h.ext with | none => true | some e => e.data.length % 4 == 0) &&
+  (match h.ext with | none => true | some e => e.data.length / 4 ≤ 65535)   -- fix 7264ebc
 
 /-- what a header must satisfy to be representable on the wire (beyond `validHdr`): field
 ranges of the Rust integer types, a 7-bit payload type and an extension length that fits `u16`. -/
